@@ -432,7 +432,7 @@ func c18r3(c *core.Ctx) {
 
 func fieldIsName(f *ssa.Field) bool {
 	st, ok := f.X.Type().Underlying().(*types.Struct)
-	return ok && st.Field(f.Field).Name() == "Name"
+	return ok && core.Active.CanonFieldName(st.Field(f.Field)) == "Name"
 }
 
 func c18r4(c *core.Ctx) {
@@ -495,14 +495,7 @@ func c18r4(c *core.Ctx) {
 		ok := false
 		core.Instrs(f, func(i ssa.Instruction) {
 			if r, isR := i.(*ssa.Return); isR && len(res(r)) == 1 {
-				if core.AnySource(res(r)[0], func(s ssa.Value) bool {
-					e, isE := s.(*ssa.Extract)
-					if !isE {
-						return false
-					}
-					call, isC := e.Tuple.(*ssa.Call)
-					return isC && core.IsCall(call, "(*os.File).Write")
-				}) {
+				if carriesWriteErr(res(r)[0], 2) {
 					ok = true
 				}
 			}
@@ -649,26 +642,7 @@ func c19r2(c *core.Ctx) {
 		both := wOK && cOK
 		if !both {
 			// merged error variable: err = write error, or close error if nil  -> one test on the phi
-			both = core.Dominated(rename, core.IsNilFact(func(v ssa.Value) bool {
-				ph, ok := v.(*ssa.Phi)
-				if !ok {
-					return false
-				}
-				hasW, hasC := false, false
-				for _, e := range ph.Edges {
-					for _, s := range core.Sources(e) {
-						if ex, ok := s.(*ssa.Extract); ok {
-							if call, ok := ex.Tuple.(*ssa.Call); ok && core.IsCall(call, "(*os.File).Write") {
-								hasW = true
-							}
-						}
-						if call, ok := s.(*ssa.Call); ok && core.IsCall(call, "(*os.File).Close") {
-							hasC = true
-						}
-					}
-				}
-				return hasW && hasC
-			}))
+			both = core.Dominated(rename, core.IsNilFact(func(v ssa.Value) bool { return isWriteCloseErr(v, 2) }))
 		}
 		c.Check(both, "rename-after-success@"+fname(set), posOf(rename), "the rename is dominated by the success of write and close", "the rename is not dominated by the success of both the write and the close")
 	} else if rename != nil {
@@ -799,4 +773,75 @@ func loopsIn(f *ssa.Function) bool {
 		}
 	}
 	return false
+}
+
+// carriesWriteErr: the error result of (*os.File).Write is among the sources of v, directly or as what a same-package helper
+// returns ( err = writeAndClose(file, value) ).
+func carriesWriteErr(v ssa.Value, depth int) bool {
+	return core.AnySource(v, func(s ssa.Value) bool {
+		if e, isE := s.(*ssa.Extract); isE {
+			if call, isC := e.Tuple.(*ssa.Call); isC && core.IsCall(call, "(*os.File).Write") {
+				return true
+			}
+		}
+		call, isC := s.(*ssa.Call)
+		if !isC || depth == 0 {
+			return false
+		}
+		g := call.Call.StaticCallee()
+		if g == nil || !core.InModule(g) || g.Blocks == nil {
+			return false
+		}
+		found := false
+		core.Instrs(g, func(i ssa.Instruction) {
+			if r, isR := i.(*ssa.Return); isR && len(res(r)) == 1 && carriesWriteErr(res(r)[0], depth-1) {
+				found = true
+			}
+		})
+		return found
+	})
+}
+
+// isWriteCloseErr: v is the merged error of the write and the close ( err = write error, or the close error if that is nil ):
+// a phi over both, or the result of a same-package helper all of whose returns hand back such a value.
+func isWriteCloseErr(v ssa.Value, depth int) bool {
+	if ph, ok := v.(*ssa.Phi); ok {
+		hasW, hasC := false, false
+		for _, e := range ph.Edges {
+			for _, s := range core.Sources(e) {
+				if ex, ok := s.(*ssa.Extract); ok {
+					if call, ok := ex.Tuple.(*ssa.Call); ok && core.IsCall(call, "(*os.File).Write") {
+						hasW = true
+					}
+				}
+				if call, ok := s.(*ssa.Call); ok && core.IsCall(call, "(*os.File).Close") {
+					hasC = true
+				}
+			}
+		}
+		if hasW && hasC {
+			return true
+		}
+	}
+	if depth == 0 {
+		return false
+	}
+	call, ok := v.(*ssa.Call)
+	if !ok {
+		return false
+	}
+	g := call.Call.StaticCallee()
+	if g == nil || !core.InModule(g) || g.Blocks == nil {
+		return false
+	}
+	n, all := 0, true
+	core.Instrs(g, func(i ssa.Instruction) {
+		if r, isR := i.(*ssa.Return); isR {
+			n++
+			if len(res(r)) != 1 || !isWriteCloseErr(res(r)[0], depth-1) {
+				all = false
+			}
+		}
+	})
+	return n > 0 && all
 }
